@@ -714,6 +714,10 @@ pub(super) fn translate_select_item(cid: rq::CId, ctx: &mut Context) -> Result<S
             // or use something that will not clash with other names
             ctx.anchor.col_name.gen()
         });
+        #[cfg(feature = "verif")]
+        crate::sql::verif_hooks::trace_event(serde_json::json!({
+            "event": "select_item", "cid": cid, "inferred": inferred_name, "expected": expected, "alias": ident,
+        }));
         ctx.anchor.column_names.insert(cid, ident.to_string());
 
         return Ok(SelectItem::ExprWithAlias {
@@ -722,6 +726,10 @@ pub(super) fn translate_select_item(cid: rq::CId, ctx: &mut Context) -> Result<S
         });
     }
 
+    #[cfg(feature = "verif")]
+    crate::sql::verif_hooks::trace_event(serde_json::json!({
+        "event": "select_item", "cid": cid, "inferred": inferred_name, "expected": expected, "alias": null,
+    }));
     Ok(SelectItem::UnnamedExpr(expr))
 }
 
